@@ -3,7 +3,7 @@
    function; `look` is an arbitrary state of the identifier cache.            *)
 From Coq Require Import ZArith NArith List Bool Permutation.
 From XV Require Import core.Value model.Hash model.Cache model.Edits
-  proofs.Hash_lemmas proofs.Neutral_lemmas proofs.Cache_lemmas.
+  model.Spec proofs.Hash_lemmas proofs.Neutral_lemmas proofs.Cache_lemmas proofs.Spec_lemmas.
 Import ListNotations.
 
 (* keyword order: the stored values of any node in another order (distinct
@@ -48,3 +48,24 @@ Theorem C01_cache_prefix_refuted :
     nth_error ops1 3 = Some (OpRaw 1) /\ nth_error ops2 1 = Some (OpRaw 1) /\ d1 <> d2.
 Proof. exact cache_prefix_order_dependent. Qed.
 Print Assumptions C01_cache_prefix_refuted.
+
+(* acyclic graphs: every identifier the model computes - with any fuel, in any context,
+   with any sound cache - is the identifier of the fuel-free table specification ...       *)
+Theorem C01_acyclic_computation_is_spec : forall H cs h, ordered h ->
+  forall look, (forall m d, look m = Some d -> d = nth m (T H cs h) []) ->
+  forall fuel n d e, hnode H cs h look fuel [] n = Ok (d, e) -> d = spec_id H cs h n /\ e = 0.
+Proof. exact hnode_spec. Qed.
+Print Assumptions C01_acyclic_computation_is_spec.
+
+(* ... and the cache machine is sound for EVERY history of identifier requests and seals,
+   from every sound state (in particular the initial one): each answer is the table
+   identifier of the requested node, whatever was requested or sealed before             *)
+Theorem C01_cache_sound_acyclic : forall H cs h, ordered h ->
+  forall fuel fixflag ops s, csound H cs h s ->
+  Forall2 (answer_spec H cs h) ops (run H cs h fuel fixflag s ops).
+Proof. exact cache_sound. Qed.
+Print Assumptions C01_cache_sound_acyclic.
+
+Theorem C01_initial_state_sound : forall H cs h flags, csound H cs h (map centry0 flags).
+Proof. exact csound_init. Qed.
+Print Assumptions C01_initial_state_sound.
